@@ -712,21 +712,18 @@ fn diff(exp: &Obs, got: &Obs, out: &mut Vec<(String, String)>) {
                 let at = format!("layer {i} ({role}, {}x{}) cell ({},{})", e.size.0, e.size.1, n % w, n / w);
                 let (k, m) = match (ce, cg) {
                     (None, Some(g)) => ("cell.invisible.became_visible".to_string(), format!("{at}: invisible became {g:?}")),
-                    (Some(e), None) => (format!("cell.{kind}.became_invisible"), format!("{at}: {e:?} became invisible")),
+                    (Some(e), None) => ("cell.visible.became_invisible".to_string(), format!("{at}: {kind} cell {e:?} became invisible")),
                     (Some(e), Some(g)) => {
                         if e.0 != g.0 {
-                            (format!("cell.{kind}.ch|{}", ch_class(e.0)), format!("{at}: char {:#x} became {:#x} (cell {e:?} -> {g:?})", e.0, g.0))
+                            (format!("cell.{kind}.ch"), format!("{at}: char {:#x} ({}) became {:#x} (cell {e:?} -> {g:?})", e.0, ch_class(e.0), g.0))
                         } else if e.1 != g.1 {
-                            (format!("cell.{kind}.fg|{}", col_class(e.1)), format!("{at}: fg {:#x} became {:#x} (cell {e:?} -> {g:?})", e.1, g.1))
+                            (format!("cell.{kind}.fg"), format!("{at}: fg {:#x} ({}) became {:#x} (cell {e:?} -> {g:?})", e.1, col_class(e.1), g.1))
                         } else if e.2 != g.2 {
-                            (format!("cell.{kind}.bg|{}", col_class(e.2)), format!("{at}: bg {:#x} became {:#x} (cell {e:?} -> {g:?})", e.2, g.2))
+                            (format!("cell.{kind}.bg"), format!("{at}: bg {:#x} ({}) became {:#x} (cell {e:?} -> {g:?})", e.2, col_class(e.2), g.2))
                         } else if e.3 != g.3 {
                             (format!("cell.{kind}.attr"), format!("{at}: attr {:#06x} became {:#06x} (cell {e:?} -> {g:?})", e.3, g.3))
                         } else {
-                            (
-                                format!("cell.{kind}.font_page|{}", if e.4 > 255 { ">255" } else { "<=255" }),
-                                format!("{at}: font page {} became {} (cell {e:?} -> {g:?})", e.4, g.4),
-                            )
+                            (format!("cell.{kind}.font_page"), format!("{at}: font page {} became {} (cell {e:?} -> {g:?})", e.4, g.4))
                         }
                     }
                     (None, None) => unreachable!(),
